@@ -5,6 +5,7 @@ package engine
 import (
 	"context"
 	"fmt"
+	"runtime/debug"
 	"sort"
 
 	"github.com/go-logr/logr"
@@ -195,12 +196,12 @@ func (d *DynCache) Source(handler.EventHandler, ...predicate.Predicate) source.S
 
 // World is one simulated cluster plus one PKO "process".
 type World struct {
-	Scheme *runtime.Scheme
-	Store  *kubesim.Store
-	Client *kubesim.Client // manager client (PKO's own APIs + writes)
+	Scheme   *runtime.Scheme
+	Store    *kubesim.Store
+	Client   *kubesim.Client // manager client (PKO's own APIs + writes)
 	Uncached *kubesim.Client
-	Cache  *DynCache
-	Ctx    context.Context
+	Cache    *DynCache
+	Ctx      context.Context
 
 	ctrls map[string]Reconciler
 
@@ -233,6 +234,7 @@ type PassInfo struct {
 	FirstSeq   int // index into Store.Trace of the first call of the pass
 	LastSeq    int // one past the last call
 	Panic      any
+	PanicStack string
 }
 
 // NewWorld creates a store with the two namespaces and a fresh PKO process.
@@ -289,6 +291,7 @@ func (w *World) RunPass(controller string, req ctrl.Request) *PassInfo {
 					return
 				}
 				p.Panic = r
+				p.PanicStack = string(debug.Stack())
 				p.Err = fmt.Sprintf("panic: %v", r)
 			}
 		}()
